@@ -3,6 +3,7 @@ package main
 import (
 	"go/token"
 	"go/types"
+	"sort"
 	"strings"
 
 	"golang.org/x/tools/go/ssa"
@@ -553,8 +554,214 @@ func successEdgesOfCall(fn *ssa.Function, call ssa.Instruction) func(*ssa.BasicB
 	}
 }
 
-// atomEdges: edges of fn on which an atom with one of the given canonical strings holds.
+// atomEdges: edges of fn on which an atom with one of the given canonical strings holds —
+// directly, or because the edge is the "true" edge of a same-module boolean helper (resp. the
+// success edge of an error-returning helper) all of whose positive returns are dominated by
+// that atom (one level of helper inlining, parameters substituted).
 func atomEdges(fn *ssa.Function, R *Renderer, want ...string) func(*ssa.BasicBlock, int) bool {
+	direct := atomEdgesDirect(fn, R, want...)
+	ws := map[string]bool{}
+	for _, w := range want {
+		ws[w] = true
+	}
+	type ek struct {
+		b *ssa.BasicBlock
+		k int
+	}
+	set := map[ek]bool{}
+	var succ []func(*ssa.BasicBlock, int) bool
+	if !inHelperFacts {
+		for _, b := range fn.Blocks {
+			for _, in := range b.Instrs {
+				cl, ok := in.(*ssa.Call)
+				if !ok {
+					continue
+				}
+				h := cl.Call.StaticCallee()
+				if h == nil || h.Blocks == nil || h == fn || !isJivaFn(h) {
+					continue
+				}
+				facts := helperFacts(h)
+				if len(facts) == 0 {
+					continue
+				}
+				args := callArgs(R, cl)
+				hit := false
+				for _, f := range facts {
+					if ws[substParams(f, args)] {
+						hit = true
+					}
+				}
+				if !hit {
+					continue
+				}
+				res := h.Signature.Results()
+				if res.Len() == 1 && isBoolType(res.At(0).Type()) {
+					// edges of branches on this call's value
+					for _, bb := range fn.Blocks {
+						iff, ok := bb.Instrs[len(bb.Instrs)-1].(*ssa.If)
+						if !ok {
+							continue
+						}
+						cond, neg := iff.Cond, false
+						for {
+							if u, ok := cond.(*ssa.UnOp); ok && u.Op == token.NOT {
+								cond, neg = u.X, !neg
+								continue
+							}
+							break
+						}
+						if cond == ssa.Value(cl) {
+							if neg {
+								set[ek{bb, 1}] = true
+							} else {
+								set[ek{bb, 0}] = true
+							}
+						}
+					}
+				} else if errResultIndex(h) >= 0 {
+					succ = append(succ, successEdgesOfCall(fn, cl))
+				}
+			}
+		}
+	}
+	return func(b *ssa.BasicBlock, k int) bool {
+		if direct(b, k) || set[ek{b, k}] {
+			return true
+		}
+		for _, f := range succ {
+			if f(b, k) {
+				return true
+			}
+		}
+		return false
+	}
+}
+
+func isBoolType(t types.Type) bool {
+	b, ok := t.Underlying().(*types.Basic)
+	return ok && b.Info()&types.IsBoolean != 0
+}
+
+func isJivaFn(f *ssa.Function) bool {
+	if f.Pkg != nil {
+		return isJivaPkg(f.Pkg.Pkg)
+	}
+	if f.Parent() != nil {
+		return isJivaFn(f.Parent())
+	}
+	return false
+}
+
+var (
+	helperFactsMemo = map[*ssa.Function][]string{}
+	inHelperFacts   bool
+)
+
+// helperFacts: atoms (over h's parameters) that hold whenever h returns true (boolean helper)
+// or a nil error (fallible helper).
+func helperFacts(h *ssa.Function) []string {
+	if f, ok := helperFactsMemo[h]; ok {
+		return f
+	}
+	helperFactsMemo[h] = nil
+	if len(h.Blocks) == 0 || len(h.Blocks) > 40 {
+		return nil
+	}
+	res := h.Signature.Results()
+	isBool := res.Len() == 1 && isBoolType(res.At(0).Type())
+	ei := errResultIndex(h)
+	if !isBool && ei < 0 {
+		return nil
+	}
+	prev := inHelperFacts
+	inHelperFacts = true
+	defer func() { inHelperFacts = prev }()
+	R := NewRenderer(h)
+	cands := map[string]bool{}
+	for _, ea := range allAtoms(h, R) {
+		cands[ea.Atom.String()] = true
+	}
+	type site struct {
+		at    ssa.Instruction
+		extra string
+	}
+	var sites []site
+	for _, r := range Returns(h) {
+		idx := 0
+		if !isBool {
+			idx = ei
+		}
+		if idx >= len(r.Results) {
+			continue
+		}
+		v := strip(r.Results[idx])
+		addVal := func(val ssa.Value, at ssa.Instruction) {
+			if isBool {
+				if c, ok := val.(*ssa.Const); ok {
+					if c.Value != nil && c.Value.String() == "true" {
+						sites = append(sites, site{at, ""})
+					}
+					return
+				}
+				sites = append(sites, site{at, R.CondAtom(val).String()})
+				return
+			}
+			if isNilConst(val) {
+				sites = append(sites, site{at, ""})
+				return
+			}
+			if provablyNonNilError(val) {
+				return
+			}
+			sites = append(sites, site{at, isNilAtom(R.V(val))})
+		}
+		if p, ok := v.(*ssa.Phi); ok {
+			for _, e := range allPhiEdges(p) {
+				addVal(strip(e.val), e.from.Instrs[len(e.from.Instrs)-1])
+			}
+		} else {
+			addVal(v, r)
+		}
+	}
+	if len(sites) == 0 {
+		return nil
+	}
+	var out []string
+	first := true
+	for _, s := range sites {
+		fs := map[string]bool{}
+		if s.extra != "" {
+			fs[s.extra] = true
+		}
+		for a := range cands {
+			at := s.at
+			ws := Query{Fn: h, IsSite: func(in ssa.Instruction) bool { return in == at }, GenEdge: atomEdgesDirect(h, R, a)}.Run()
+			if len(ws) == 0 {
+				fs[a] = true
+			}
+		}
+		if first {
+			for a := range fs {
+				out = append(out, a)
+			}
+			first = false
+		} else {
+			var keep []string
+			for _, a := range out {
+				if fs[a] {
+					keep = append(keep, a)
+				}
+			}
+			out = keep
+		}
+	}
+	sort.Strings(out)
+	helperFactsMemo[h] = out
+	return out
+}
+
+func atomEdgesDirect(fn *ssa.Function, R *Renderer, want ...string) func(*ssa.BasicBlock, int) bool {
 	type ek struct {
 		b *ssa.BasicBlock
 		k int
